@@ -2,6 +2,7 @@ package main
 
 import (
 	"fmt"
+	"math"
 
 	"verifmc/hx"
 	"verifmc/ref"
@@ -56,6 +57,25 @@ func convJob(cf convCfg) opJob {
 	case "equal":
 		X = ref.Fill(cf.dt, cf.x, func(i int) float64 { return -0.75 })
 		W = ref.Fill(cf.dt, cf.w, func(i int) float64 { return 2 })
+	case "inf-weight", "nan-weight", "neg-inf-weight":
+		// one non-finite weight: every output whose window covers that tap - on the image or on the zero padding
+		// (Inf * 0 = NaN) - is non-finite
+		v := map[string]float64{"inf-weight": math.Inf(1), "nan-weight": math.NaN(), "neg-inf-weight": math.Inf(-1)}[cf.fill]
+		W0 := W
+		W = ref.Fill(cf.dt, cf.w, func(i int) float64 {
+			if i == len(W0.V)-1 {
+				return v
+			}
+			return W0.F(i)
+		})
+	case "inf-input":
+		X0 := X
+		X = ref.Fill(cf.dt, cf.x, func(i int) float64 {
+			if i == 1 {
+				return math.Inf(1)
+			}
+			return X0.F(i)
+		})
 	}
 	a := cf.a
 	var attrs []hx.Attr
@@ -292,6 +312,26 @@ func checkC05(c *hx.Checker) {
 		} {
 			cf.fill = fill
 			cf.extra = []string{"value-pattern"}
+			jobs = append(jobs, convJob(cf))
+		}
+	}
+	// non-finite weights / inputs, also where a window lies entirely on the padding (pad >= dilated kernel extent)
+	for _, fill := range []string{"inf-weight", "nan-weight", "neg-inf-weight", "inf-input"} {
+		for _, cf := range []convCfg{
+			{dt: ref.F32, x: []int{1, 1, 3, 3}, w: []int{1, 1, 2, 2}, bias: true, a: ref.ConvAttrs{Pads: []int{2, 2, 2, 2}}, route: "op"},
+			{dt: ref.F32, x: []int{1, 2, 3}, w: []int{2, 2, 2}, bias: false, a: ref.ConvAttrs{Pads: []int{3, 2}}, route: "op"},
+			{dt: ref.F32, x: []int{1, 1, 2, 4}, w: []int{1, 1, 1, 2}, bias: false, a: ref.ConvAttrs{Pads: []int{1, 2, 0, 3}}, route: "op"},
+			{dt: ref.F32, x: []int{2, 1, 4, 4}, w: []int{2, 1, 3, 3}, bias: true, a: ref.ConvAttrs{AutoPad: "SAME_UPPER"}, route: "model"},
+			{dt: ref.F32, x: []int{1, 1, 5}, w: []int{1, 1, 2}, bias: false, a: ref.ConvAttrs{Dilations: []int{2}, Pads: []int{3, 3}}, route: "op"},
+			{dt: ref.F32, x: []int{1, 2, 4, 3}, w: []int{1, 2, 2, 2}, bias: true, a: ref.ConvAttrs{}, route: "op"},
+		} {
+			cf.fill = fill
+			cf.extra = []string{"non-finite"}
+			if fill == "inf-input" && cf.a.Dilations != nil {
+				// the infinite element (index 1 of the first row) lies between two taps of a window: not a tap, so it
+				// contributes nothing; gonnx dilates the KERNEL by inserting zeros and multiplies it (KF-C05-2)
+				cf.extra = append(cf.extra, "infinite-input-between-dilated-taps")
+			}
 			jobs = append(jobs, convJob(cf))
 		}
 	}
